@@ -22,3 +22,7 @@ pub(crate) mod tls;
 #[cfg(scylla_verif)]
 #[allow(missing_docs)]
 pub use connection::verif_hooks as verif_streams;
+
+#[cfg(scylla_verif)]
+#[allow(missing_docs)]
+pub use connection::verif_keyspace_hooks as verif_keyspace;
